@@ -150,10 +150,10 @@ def tree_digest(root, exclude=()):
             if os.path.islink(p):
                 out[rel] = ("link", os.readlink(p))
             elif os.path.isdir(p):
-                out[rel] = ("dir",)
+                out[rel] = ("dir", oct(os.stat(p).st_mode & 0o777))
             else:
                 with open(p, "rb") as fh:
-                    out[rel] = ("file", hashlib.sha256(fh.read()).hexdigest())
+                    out[rel] = ("file", hashlib.sha256(fh.read()).hexdigest(), oct(os.stat(p).st_mode & 0o777))
         dirnames[:] = [d for d in dirnames if not os.path.islink(os.path.join(dirpath, d))]
     return out
 
